@@ -1,5 +1,5 @@
 # Per-property prose for MANIFEST.json.
-HOOK_COMMITS = ["c0392a7 verif hook: dvid.VerifPoint (no-op unless built with tag verif)", "086a371 verif hook: read-only identifier-map introspection shim (build tag verif)", "f834000 verif hook: RPC switchboard and server-mode shims (build tag verif)", "7b8e95b verif hook: write points in the Badger engine (VerifPoint before/after put, delete, batch commit)", "d6199fd verif hook: write points in the file log (header / payload / sync)", "7302290 verif hook: write points in the server mutation log"]
+HOOK_COMMITS = ["c0392a7 verif hook: dvid.VerifPoint (no-op unless built with tag verif)", "086a371 verif hook: read-only identifier-map introspection shim (build tag verif)", "f834000 verif hook: RPC switchboard and server-mode shims (build tag verif)", "7b8e95b verif hook: write points in the Badger engine (VerifPoint before/after put, delete, batch commit)", "d6199fd verif hook: write points in the file log (header / payload / sync)", "7302290 verif hook: write points in the server mutation log", "e72c67b verif hook: yield points at read-modify-write sites (annotation, labelmap, neuronjson, datastore)", "8de5a16 verif hook: yield point before the keyvalue batch commit"]
 NOT_APPLICABLE = {}
 TEXT = {
     "C15": {
